@@ -11,7 +11,7 @@ import z3
 
 from vf.runner import Unsupported
 from vf.pyvc.values import (V, VInt, VBool, NONE, VSeq, VBox, VTuple, VOpt, VObj, VPy, VFunc, VClass, VRef, VArr, DictVal, empty_dict, REC_CLASSES,
-                            I, B, SeqI, wrap, unwrap, type_of, fresh, fresh_name, const_seq, lift, sort_of)
+                            I, B, SeqI, SeqSeqI, wrap, unwrap, type_of, fresh, fresh_name, const_seq, lift, sort_of)
 
 # uninterpreted / axiomatised symbols ------------------------------------------------------------
 F_FIND = z3.Function("first_at", SeqI, I, I, I)      # first_at(buf, c, p): least i >= p with buf[i]==c, or -1
@@ -89,6 +89,7 @@ class SetVal:
 
 
 F_REMATCH = z3.Function("re_matches", I, z3.StringSort(), SeqI, B)
+F_FINDALL = z3.Function("re_findall", I, SeqI, SeqSeqI)
 F_REGROUP = z3.Function("re_group", I, z3.StringSort(), I, SeqI, SeqI)
 F_REGROUPNONE = z3.Function("re_group_is_none", I, z3.StringSort(), I, SeqI, B)
 
@@ -783,6 +784,8 @@ class SpecLib:
         if isinstance(rec["ret"], tuple) and rec["ret"][0] == "dict":
             return self._rec_spec_dict(ex, f, args, kwargs, rec, acts)
         app = F(*acts)
+        if rec.get("opaque"):
+            return wrap(rec["ret"], app)       # a declared function without a definition: known only through contracts
         # fuel 1: the defining equation F(args) == body(args) is instantiated for every application
         # that the contract text itself makes; applications inside that body are left folded.
         if ex._rec_depth == 0:
@@ -1313,6 +1316,10 @@ class SpecLib:
             return f
         for how in ("match", "fullmatch", "search"):
             M[("pattern", how)] = p_match(how)
+
+        def p_findall(ex, a, kw):
+            return self.re_findall(ex, a[0].obj, a[1])
+        M[("pattern", "findall")] = p_findall
         MD = self.models
 
         def m_groups(ex, a, kw):
@@ -1478,6 +1485,20 @@ class SpecLib:
         for hook in self.regex_facts:
             hook(ex, self, pat, pid, how, subj, ok)
         return VOpt(z3.Not(ok), mo)
+
+    def re_findall(self, ex, pat, subject):
+        """pattern.findall(text) for a pattern without groups: the list of matched substrings, an uninterpreted function of
+        (pattern, text); what is known about the elements comes from contracts (each element is a match of the pattern)"""
+        if pat.groups:
+            raise Unsupported("findall with groups")
+        subj = subject
+        if isinstance(subj, VOpt):
+            subj = ex.deopt(subj)
+        if subj.pyval is not None:
+            return self.make_list(ex, [lift(x) for x in pat.findall(subj.pyval)]) if pat.findall(subj.pyval) else \
+                VBox("list", VSeq("list", subj.kind, z3.Empty(sort_of(("list", subj.kind)))))
+        self.use("re.findall on symbolic text: uninterpreted list of matched substrings of (pattern, text)")
+        return VBox("list", VSeq("list", subj.kind, F_FINDALL(z3.IntVal(self.pattern_id(pat)), subj.t)))
 
     def _single_class_fact(self, ex, pat, how, subj, ok):
         """patterns of the form  CLASS  or  CLASS+  under match(): the match succeeds iff the subject is
